@@ -276,7 +276,7 @@ void recipeExec(RunState& rs) {
                 }
                 for (int k = 0; k < 7; ++k)
                     if (merged[size_t(k)] != ref.counts[size_t(k)])
-                        ctx.addViolation("counter", std::string(names[k]) + (grew && sc.isTaskBased() ? "@threads-grew" : ""), std::string("merged ") + names[k] + " counter is " + std::to_string(merged[size_t(k)]) + " but the tree implies " + std::to_string(ref.counts[size_t(k)]) + " (" + std::to_string(per.size()) + " kernel copies)");
+                        ctx.addViolation("counter", std::string(names[k]) + (grew && sc.isTaskBased() && merged[size_t(k)] > ref.counts[size_t(k)] ? "@threads-grew-overcount" : ""), std::string("merged ") + names[k] + " counter is " + std::to_string(merged[size_t(k)]) + " but the tree implies " + std::to_string(ref.counts[size_t(k)]) + " (" + std::to_string(per.size()) + " kernel copies)");
                 rs.drain("run");
             }
         }
